@@ -4,4 +4,7 @@ set -e
 export CARGO_NET_OFFLINE=true
 cd "$(dirname "$0")/harness"
 cargo build --quiet --profile checked
+cargo build --quiet --profile fast
+cargo build --quiet --profile dev0
+(cd c16_traits && cargo check --quiet --target-dir ../target/c16)
 echo "setup ok"
